@@ -9,7 +9,7 @@ def showPhase : CPhase → String
 
 def showEv : Ev → String
   | .got c i => s!"G{c}:{i}" | .exited c => s!"X{c}" | .taskDone u => s!"T{u}" | .valueError => "VE"
-  | .sawCancel c => s!"C{c}" | .joined j => s!"J{j}"
+  | .sawCancel c => s!"C{c}" | .joined j => s!"J{j}" | .handTook i => s!"H{i}"
 
 /-- observation after an op; `seen` = length of the log before it -/
 def obs (q : Q) (seen : Nat) (r : String) : String :=
@@ -17,7 +17,7 @@ def obs (q : Q) (seen : Nat) (r : String) : String :=
   let cs := ",".intercalate (k.cores.map fun c => showPhase c.phase)
   let js := ",".intercalate (k.joiners.map fun j => match j.phase with | .done => "D" | _ => "P")
   let ms := ",".intercalate (k.cores.map fun c => toString c.marks)
-  s!"r={r} | n={k.items.length} u={k.unfinished} q={q.ready.length} | ev={",".intercalate ((q.log.drop seen).map showEv)} | c={cs} | j={js} | g={k.puts},{k.exits},{k.tdCalls},{k.valueErrors} m={ms}"
+  s!"r={r} | n={k.items.length} u={k.unfinished} q={q.ready.length} | ev={",".intercalate ((q.log.drop seen).map showEv)} | c={cs} | j={js} | g={k.puts},{k.exits},{k.tdCalls},{k.valueErrors},{k.takes} m={ms}"
 
 def parseInput (toks : List String) : Option Input :=
   match toks with
@@ -27,14 +27,16 @@ def parseInput (toks : List String) : Option Input :=
   | ["cancel", c] => c.toNat?.map .cancel
   | ["gate", c, "ok"] => c.toNat?.map (.gate · false)
   | ["gate", c, "exc"] => c.toNat?.map (.gate · true)
+  | ["take"] => some .take
   | ["run"] => some (.run 0)
   | ["run", i] => i.toNat?.map .run
   | _ => none
 
-/-- `ok`/`noop` as the harness reports it for the real objects -/
+/-- `ok`/`noop`/`empty` (= `get_nowait()` raised `QueueEmpty`) as the harness reports it for the real objects -/
 def verdict (q : Q) : Input → String
   | .gate c _ => if q.canGate c then "ok" else "noop"
   | .run i => if i < q.ready.length then "ok" else "noop"
+  | .take => if q.k.items.isEmpty then "empty" else "ok"
   | _ => "ok"
 
 partial def loop (h out : IO.FS.Stream) (q : Q) : IO Unit := do
